@@ -2,9 +2,17 @@ from . import COMMON_TB
 
 CONFIG = dict(
     harness="c10",
-    comparisons=[
-        dict(name="model", code=1000, kind="eq"),
-        dict(name="spec", code=1001, kind="holds", predicate=True),
+    suites=[
+        # sequential sink trees, embedded Aggregate, single-client worker scripts: schedule-independent output
+        dict(suffix="", comparisons=[
+            dict(name="model", code=1000, kind="eq"),
+            dict(name="spec", code=1001, kind="holds", predicate=True),
+        ]),
+        # real threads (mutex sink, worker sink): the linearisation is observed, then checked
+        dict(suffix="-thr", comparisons=[
+            dict(name="model-on-observed-schedule", code=1002, kind="holds"),
+            dict(name="spec", code=1001, kind="holds", predicate=True),
+        ]),
     ],
     trusted_base=COMMON_TB,
     assumptions=[
